@@ -27,6 +27,11 @@ impl Ctx {
         self.clock = std::time::Instant::now();
         self.rep.count(&format!("cpu_ms.{section}"), ms);
     }
+    /// the enumeration is run as C14's bounds monitor: families that exist for the sizes of outputs (boundary sweeps,
+    /// record counts at powers of two, records with millions of windows) are left to the property's own check
+    pub fn monitor(&self) -> bool {
+        std::env::var_os("KTMC_MONITOR").is_some()
+    }
     pub fn thorough(&self) -> bool {
         self.tier == Tier::Thorough
     }
